@@ -98,11 +98,22 @@ func actorKey(i int) cryptotypes.PrivKey {
 }
 
 // NewWorld draws the per-run configuration ("swarm" knobs), builds genesis and initialises nrep replicas.
-func NewWorld(r *core.Run, nrep int) *World {
+// Preset fixes the world's shape for scripted (systematic sweep) workloads instead of drawing it.
+type Preset struct {
+	Knobs                        Knobs
+	Tenants, Providers, Auditors int
+}
+
+func NewWorld(r *core.Run, nrep int) *World { return NewWorldPreset(r, nrep, nil) }
+
+func NewWorldPreset(r *core.Run, nrep int, pre *Preset) *World {
 	w := &World{R: r, byAddr: map[string]*Actor{}, TxCfg: encCfg.TxConfig, Cdc: encCfg.Marshaler}
 	w.Time = time.Date(2021, 7, 16, 0, 0, 0, 0, time.UTC)
 	w.EscrowMA = authtypes.NewModuleAddress(etypes.ModuleName).String()
 
+	if pre != nil {
+		return w.finishWorld(r, nrep, pre)
+	}
 	// knobs: small minimum deposits in most runs so that exhaustion needs few blocks
 	depChoices := []int64{5000000, 50, 500, 20, 5000}
 	w.Knobs.DeploymentMinDeposit = depChoices[r.Choose(len(depChoices), "knob.depMinDeposit")]
@@ -159,6 +170,40 @@ func NewWorld(r *core.Run, nrep int) *World {
 	w.Height = 1 // InitChain + first commit produce version 1
 	r.Logf("world: tenants=%d providers=%d auditors=%d depMin=%d bidMin=%d maxBids=%d maxGap=%d replicas=%d",
 		nT, nP, nA, w.Knobs.DeploymentMinDeposit, w.Knobs.BidMinDeposit, w.Knobs.OrderMaxBids, w.Knobs.MaxGap, nrep)
+	return w
+}
+
+// finishWorld builds a preset world: all accounts rich, nothing drawn.
+func (w *World) finishWorld(r *core.Run, nrep int, pre *Preset) *World {
+	w.Knobs = pre.Knobs
+	idx := 0
+	add := func(role string, n int) {
+		for i := 0; i < n; i++ {
+			priv := actorKey(idx)
+			addr := sdk.AccAddress(priv.PubKey().Address())
+			a := &Actor{Name: fmt.Sprintf("%s%d", role[:1], i), Role: role, Priv: priv, Addr: addr, Bech: addr.String()}
+			a.Funds = 1000 * maxI64(w.Knobs.DeploymentMinDeposit, w.Knobs.BidMinDeposit)
+			w.Actors = append(w.Actors, a)
+			w.byAddr[a.Bech] = a
+			idx++
+		}
+	}
+	add("tenant", pre.Tenants)
+	add("provider", pre.Providers)
+	add("auditor", pre.Auditors)
+	add("bystander", 1)
+	w.Genesis = w.buildGenesis()
+	w.genesisTime = w.Time
+	for i := 0; i < nrep; i++ {
+		w.Reps = append(w.Reps, w.bootReplica(w.Genesis))
+	}
+	ctx := w.Reps[0].App.NewContext(true, tmproto.Header{Height: 1})
+	ak := w.accountKeeper(w.Reps[0])
+	for _, a := range w.Actors {
+		a.AccNum = ak.GetAccount(ctx, a.Addr).GetAccountNumber()
+	}
+	w.Height = 1
+	r.Logf("world (preset): tenants=%d providers=%d depMin=%d bidMin=%d", pre.Tenants, pre.Providers, w.Knobs.DeploymentMinDeposit, w.Knobs.BidMinDeposit)
 	return w
 }
 
